@@ -116,8 +116,20 @@ func probe(a arg) (string, string) {
 		got, err = date.DefaultParser(cp, date.Rule(a.Rule))
 	case 2:
 		err = got.UnmarshalText(append([]byte(nil), in...))
+	case 3: // named string type
+		type namedS string
+		got, err = date.DefaultParser(namedS(in), date.Rule(a.Rule))
+		if err != nil {
+			err = fmt.Errorf("%w", errors.Join(err, &date.ParseError[string]{})) // the instantiation of the error type is not judged for named types
+		}
+	case 4: // named []byte type
+		type namedB []byte
+		got, err = date.DefaultParser(namedB(append([]byte(nil), in...)), date.Rule(a.Rule))
+		if err != nil {
+			err = fmt.Errorf("%w", errors.Join(err, &date.ParseError[[]byte]{}))
+		}
 	}
-	return judge(in, a.Rule, a.MaxLen, a.Path != 0, got, err)
+	return judge(in, a.Rule, a.MaxLen, a.Path != 0 && a.Path != 3, got, err)
 }
 
 // histories of depth 2: a call must behave the same whatever call preceded it (also when the caller reuses one buffer)
@@ -204,13 +216,29 @@ func main() {
 			if _, _, _, _, ok := oracle.ParseDateText(s); ok {
 				w.NonTrivial()
 			}
-			for path := 0; path < paths; path++ {
+			np := paths
+			if paths == 3 && ml == 10 && zone == "" {
+				np = 5 // + the two named-type instantiations (default limit, default zone only)
+			}
+			for path := 0; path < np; path++ {
 				if path == 2 && rule != 0 {
 					continue
 				}
 				p.Do(w, arg{In: mc.Bin(s), Rule: rule, MaxLen: ml, Path: path, Zone: zone})
 			}
 		}
+		r.Phase("rule values with bits beyond RuleDisableBasic (2, 3, 6, 7, -1, 1<<20|1): only the RuleDisableBasic bit matters; valid and near-valid texts x 5 entry points", "complete grid", func() {
+			texts := []string{"20200229", "20210229", "2020-02-29", "2021-02-29", "00010101", "0001-01-01", "99991231", "2020-0229", "202002-29", "", "2020-02-30", "20200230"}
+			setup(arg{MaxLen: 10})
+			r.Serial(func(w *mc.W) {
+				for _, t := range texts {
+					for _, rule := range []int{2, 3, 6, 7, -1, -2, 1<<20 | 1, 1 << 20} {
+						one(w, []byte(t), rule, 10, 3)
+					}
+				}
+			})
+			reset()
+		})
 		limits := []int{10, 0, 8, 15}
 		// every small limit: all valid and near-valid texts of length 6..12 under MaxInputLength 1..12
 		r.Phase("every MaxInputLength 1..12 x valid and near-valid texts of length 6..12 x 2 rules x 3 entry points", "complete grid", func() {
